@@ -475,7 +475,17 @@ where
         m: &AssignedBigUint<F>,
     ) -> Result<AssignedBigUint<F>, Error> {
         if n == 0 {
-            return self.assign_fixed_biguint(layouter, BigUint::one());
+            // x^0 mod m = 1 mod m (which is 0 for m = 1); going through `div_rem` also makes a zero
+            // modulus unsatisfiable, as it is for every n >= 2.
+            let one = self.assign_fixed_biguint(layouter, BigUint::one())?;
+            let (_, r) = self.div_rem(layouter, &one, m)?;
+            return Ok(r);
+        }
+
+        if n == 1 {
+            // The square-and-multiply loop below would return `x` itself, unreduced.
+            let (_, r) = self.div_rem(layouter, x, m)?;
+            return Ok(r);
         }
 
         let mut n = n;
